@@ -379,7 +379,7 @@ enum StrStyle {
 type AnchorId = u32;
 
 /// Writer adapter that remembers how the current output line begins: its indentation and the
-/// `- ` entry indicators written on it. Block scalar headers need it, because their explicit
+/// `- ` (also `? ` and `: `) entry indicators written on it. Block scalar headers need it, because their explicit
 /// indentation indicator counts from the column of the enclosing key or dash.
 struct LineTracker<'a, W: Write> {
     inner: &'a mut W,
@@ -427,7 +427,8 @@ impl<'a, W: Write> LineTracker<'a, W> {
                     self.open_dash = None;
                 }
                 (' ', None) => {}
-                ('-', None) => self.open_dash = Some(self.col),
+                // `? ` and `: ` open an explicit key / value the way `- ` opens an entry.
+                ('-' | '?' | ':', None) => self.open_dash = Some(self.col),
                 (_, Some(d)) => {
                     // `-` followed by something else: it was content
                     self.content_col = Some(d);
@@ -1158,7 +1159,8 @@ impl<'a, 'b, W: Write> Serializer for &'a mut YamlSerializer<'b, W> {
             // key (mapping value) or of the dash (sequence entry) this scalar belongs to; for
             // a top-level scalar it is the indentation itself.
             let parent_col = if was_map_value {
-                self.out.key_col()
+                // (the value of a composite key follows a bare `: ` indicator)
+                self.out.key_col().or(self.out.dash_col())
             } else {
                 self.out.dash_col()
             };
